@@ -92,27 +92,48 @@ theorem lookup_value (r : CachingReader) (c : Array UInt8) (h : WInv r c) (s e :
   rw [h.2] at h2
   exact ⟨h1, h2⟩
 
-structure Twin (r r₀ : CachingReader) (c : Array UInt8) : Prop where
-  w : WInv r c
-  t : RInv r₀ c
+/-- `p` is `c` cut after `p.size` bytes -/
+def PrefixOf (p c : Array UInt8) : Prop := p = c.extract 0 p.size ∧ p.size ≤ c.size
 
-/-- **`load_bytes`**: if it succeeds under faults, it succeeds on the fault-free twin, and both
-    caches then hold the same buffer for the key. -/
+theorem PrefixOf.refl (c : Array UInt8) : PrefixOf c c := ⟨by simp, Nat.le_refl _⟩
+
+theorem PrefixOf.extract {p c : Array UInt8} (h : PrefixOf p c) (s t : Nat) (ht : t ≤ p.size) :
+    p.extract s t = c.extract s t := by
+  have h1 := h.1
+  conv => lhs; rw [h1, Array.extract_extract]
+  simp only [Nat.zero_add]
+  congr 1
+  omega
+
+/-- `r` is ANY reader (any schedule, `WInv` over contents `p`), `r₀` a fault-free reader over contents
+    `c`, and `p` is `c` or a truncation of `c`. -/
+def Twin (r r₀ : CachingReader) (c : Array UInt8) : Prop :=
+  ∃ p, WInv r p ∧ RInv r₀ c ∧ PrefixOf p c
+
+theorem Twin.mk' {r r₀ : CachingReader} {c : Array UInt8} (w : WInv r c) (t : RInv r₀ c) : Twin r r₀ c :=
+  ⟨c, w, t, PrefixOf.refl c⟩
+
+/-- **`load_bytes`**: if it succeeds under faults (and on a possibly truncated stream), it succeeds
+    on the fault-free twin over the whole contents, and both caches then hold the same buffer. -/
 theorem loadBytes_twin (r r₀ : CachingReader) (c : Array UInt8) (ht : Twin r r₀ c) (s e : Nat) (hse : s ≤ e)
     (r' : CachingReader) (h : r.loadBytes s e = (.ok (), r')) :
     ∃ r₀', r₀.loadBytes s e = (.ok (), r₀') ∧ Twin r' r₀' c ∧
       (∃ b, r'.lookup s e = some b ∧ r₀'.lookup s e = some b) ∧
       (∀ s2 e2 b2, r.lookup s2 e2 = some b2 → r'.lookup s2 e2 = some b2) ∧
       (∀ s2 e2 b2, r₀.lookup s2 e2 = some b2 → r₀'.lookup s2 e2 = some b2) := by
-  have hw' : WInv r' c := by have := loadBytes_winv r c s e ht.w; rw [h] at this; exact this
+  obtain ⟨p, hw, ht0, hp⟩ := ht
+  have hw' : WInv r' p := by have := loadBytes_winv r p s e hw; rw [h] at this; exact this
   have hlk := loadBytes_ok_lookup r r' s e h
   cases hb : r'.lookup s e with
   | none => rw [hb] at hlk; cases hlk
   | some b =>
-    obtain ⟨hfit, hval⟩ := lookup_value r' c hw' s e b hb
-    obtain ⟨r₀', g1, g2, ⟨b₀, g3, _⟩, g4⟩ := loadBytes_legal r₀ c s e ht.t hse hfit
+    obtain ⟨hfit, hval⟩ := lookup_value r' p hw' s e b hb
+    have hfit' : e ≤ c.size := Nat.le_trans hfit hp.2
+    obtain ⟨r₀', g1, g2, ⟨b₀, g3, _⟩, g4⟩ := loadBytes_legal r₀ c s e ht0 hse hfit'
     obtain ⟨_, hval₀⟩ := lookup_value r₀' c g2.winv s e b₀ g3
-    refine ⟨r₀', g1, ⟨hw', g2⟩, ⟨b, rfl, by rw [g3, hval₀, hval]⟩, ?_, g4⟩
+    have hsame : p.extract s (s + (e - s)) = c.extract s (s + (e - s)) :=
+      hp.extract s (s + (e - s)) (by omega)
+    refine ⟨r₀', g1, ⟨p, hw', g2, hp⟩, ⟨b, rfl, by rw [g3, hval₀, hval, hsame]⟩, ?_, g4⟩
     intro s2 e2 b2 hb2
     obtain ⟨extra, hx⟩ := loadBytes_bufs r s e
     rw [h] at hx
@@ -1238,5 +1259,226 @@ theorem openStream_winv (sp : Spec) (dev : Device) (s : ElfStream) (d : Device)
                   injection h with h
                   subst h
                   exact clearCache_winv r4 dev.content h4
+
+end Elf
+
+namespace Elf
+
+/-! ### `open_stream` under faults / on a truncated stream vs the fault-free open of the whole stream -/
+
+theorem streamShdr0_twin (h : FileHeader) (size : Nat) (proj : SectionHeader → Nat) (r r₀ : CachingReader)
+    (c : Array UInt8) (ht : Twin r r₀ c) (n : Nat) (r' : CachingReader)
+    (hk : streamShdr0 h size proj r = (.ok n, r')) :
+    ∃ r₀', streamShdr0 h size proj r₀ = (.ok n, r₀') ∧ Twin r' r₀' c := by
+  unfold streamShdr0 rbind rlift at hk ⊢
+  cases ho : Out.ofOption Err.IntegerOverflow (checkedAdd h.t.e_shoff size) with
+  | err e => simp [ho] at hk
+  | panic => simp [ho] at hk
+  | ok end_ =>
+    simp only [ho] at hk ⊢
+    have hle : h.t.e_shoff ≤ end_ := by
+      unfold checkedAdd at ho
+      by_cases hlt : h.t.e_shoff + size < USZ
+      · simp only [hlt, if_true, Out.ofOption] at ho
+        injection ho with ho; omega
+      · simp [hlt, Out.ofOption] at ho
+    generalize hq : r.readBytes h.t.e_shoff end_ = q at hk
+    obtain ⟨q1, q2⟩ := q
+    cases q1 with
+    | err e => simp at hk
+    | panic => simp at hk
+    | ok data =>
+      obtain ⟨r₀', g1, g2⟩ := readBytes_twin r r₀ c ht h.t.e_shoff end_ hle data q2 hq
+      rw [g1]
+      simp only at hk ⊢
+      cases hp : (SectionHeader.ep.parse h.little h.cls data 0).1 with
+      | ok sh =>
+        simp only [hp] at hk ⊢
+        injection hk with hk1 hk2; subst hk2
+        exact ⟨r₀', by rw [hk1], g2⟩
+      | err e => simp [hp] at hk
+      | panic => simp [hp] at hk
+
+theorem streamTable_twin {α} (mk : Slice → Table α) (off entsize n : Nat) (r r₀ : CachingReader)
+    (c : Array UInt8) (ht : Twin r r₀ c) (l : List α) (r' : CachingReader)
+    (hk : streamTable mk off entsize n r = (.ok l, r')) :
+    ∃ r₀', streamTable mk off entsize n r₀ = (.ok l, r₀') ∧ Twin r' r₀' c := by
+  unfold streamTable rbind rlift at hk ⊢
+  cases hm : Out.ofOption Err.IntegerOverflow (checkedMul entsize n) with
+  | err e => simp [hm] at hk
+  | panic => simp [hm] at hk
+  | ok size =>
+    simp only [hm] at hk ⊢
+    cases ho : Out.ofOption Err.IntegerOverflow (checkedAdd off size) with
+    | err e => simp [ho] at hk
+    | panic => simp [ho] at hk
+    | ok end_ =>
+      simp only [ho] at hk ⊢
+      have hle : off ≤ end_ := by
+        unfold checkedAdd at ho
+        by_cases hlt : off + size < USZ
+        · simp only [hlt, if_true, Out.ofOption] at ho
+          injection ho with ho; omega
+        · simp [hlt, Out.ofOption] at ho
+      generalize hq : r.readBytes off end_ = q at hk
+      obtain ⟨q1, q2⟩ := q
+      cases q1 with
+      | err e => simp at hk
+      | panic => simp at hk
+      | ok buf =>
+        obtain ⟨r₀', g1, g2⟩ := readBytes_twin r r₀ c ht off end_ hle buf q2 hq
+        rw [g1]
+        simp only at hk ⊢
+        injection hk with hk1 hk2; subst hk2
+        exact ⟨r₀', by rw [hk1], g2⟩
+
+theorem parseSectionHeaders_twin (h : FileHeader) (r r₀ : CachingReader) (c : Array UInt8) (ht : Twin r r₀ c)
+    (l : List SectionHeader) (r' : CachingReader) (hk : parseSectionHeaders h r = (.ok l, r')) :
+    ∃ r₀', parseSectionHeaders h r₀ = (.ok l, r₀') ∧ Twin r' r₀' c := by
+  unfold parseSectionHeaders at hk ⊢
+  by_cases h0 : h.t.e_shoff = 0
+  · simp only [h0, if_true] at hk ⊢
+    injection hk with hk1 hk2; subst hk2
+    exact ⟨r₀, by rw [hk1], ht⟩
+  · simp only [h0, if_false, rbind, rlift] at hk ⊢
+    cases hv : SectionHeader.ep.validateEntsize h.cls h.t.e_shentsize with
+    | err e => simp [hv] at hk
+    | panic => simp [hv] at hk
+    | ok entsize =>
+      simp only [hv] at hk ⊢
+      by_cases hz : h.t.e_shnum = 0
+      · simp only [hz, if_true] at hk ⊢
+        generalize hq : streamShdr0 h entsize SectionHeader.sh_size r = q at hk
+        obtain ⟨q1, q2⟩ := q
+        cases q1 with
+        | err e => simp at hk
+        | panic => simp at hk
+        | ok n =>
+          obtain ⟨r₀1, g1, g2⟩ := streamShdr0_twin h entsize _ r r₀ c ht n q2 hq
+          rw [g1]
+          simp only at hk ⊢
+          exact streamTable_twin _ _ _ _ q2 r₀1 c g2 l r' hk
+      · simp only [hz, if_false] at hk ⊢
+        exact streamTable_twin _ _ _ _ r r₀ c ht l r' hk
+
+theorem parseProgramHeaders_twin (h : FileHeader) (r r₀ : CachingReader) (c : Array UInt8) (ht : Twin r r₀ c)
+    (l : List ProgramHeader) (r' : CachingReader) (hk : parseProgramHeaders h r = (.ok l, r')) :
+    ∃ r₀', parseProgramHeaders h r₀ = (.ok l, r₀') ∧ Twin r' r₀' c := by
+  unfold parseProgramHeaders at hk ⊢
+  by_cases h0 : h.t.e_phoff = 0
+  · simp only [h0, if_true] at hk ⊢
+    injection hk with hk1 hk2; subst hk2
+    exact ⟨r₀, by rw [hk1], ht⟩
+  · simp only [h0, if_false, rbind, rlift] at hk ⊢
+    by_cases hz : h.t.e_phnum = Abi.PN_XNUM
+    · simp only [hz, if_true] at hk ⊢
+      generalize hq : streamShdr0 h (SectionHeader.ep.size h.cls) SectionHeader.sh_info r = q at hk
+      obtain ⟨q1, q2⟩ := q
+      cases q1 with
+      | err e => simp at hk
+      | panic => simp at hk
+      | ok n =>
+        obtain ⟨r₀1, g1, g2⟩ := streamShdr0_twin h _ _ r r₀ c ht n q2 hq
+        rw [g1]
+        simp only at hk ⊢
+        cases hv : ProgramHeader.ep.validateEntsize h.cls h.t.e_phentsize with
+        | err e => simp [hv] at hk
+        | panic => simp [hv] at hk
+        | ok entsize =>
+          simp only [hv] at hk ⊢
+          exact streamTable_twin _ _ _ _ q2 r₀1 c g2 l r' hk
+    · simp only [hz, if_false] at hk ⊢
+      cases hv : ProgramHeader.ep.validateEntsize h.cls h.t.e_phentsize with
+      | err e => simp [hv] at hk
+      | panic => simp [hv] at hk
+      | ok entsize =>
+        simp only [hv] at hk ⊢
+        exact streamTable_twin _ _ _ _ r r₀ c ht l r' hk
+
+theorem Twin.clearCache {r r₀ : CachingReader} {c : Array UInt8} (h : Twin r r₀ c) :
+    Twin r.clearCache r₀.clearCache c := by
+  obtain ⟨p, hw, ht, hp⟩ := h
+  exact ⟨p, clearCache_winv r p hw, clearCache_inv r₀ c ht, hp⟩
+
+/-- **`open_stream`**: if it succeeds under ANY schedule on a stream whose contents are the whole
+    file or a truncation of it, then the fault-free open of the whole file succeeds with the same
+    file header, the same section headers and the same program headers. -/
+theorem open_twin (sp : Spec) (devp dev : Device) (hl : Legal dev.sched)
+    (hp : PrefixOf devp.content dev.content) (s : ElfStream) (d : Device)
+    (h : openStream sp devp = (.ok s, d)) :
+    ∃ s₀ d₀, openStream sp dev = (.ok s₀, d₀) ∧ s₀.ehdr = s.ehdr ∧ s₀.shdrs = s.shdrs ∧
+      s₀.phdrs = s.phdrs ∧ Twin s.reader s₀.reader dev.content := by
+  obtain ⟨cr₀, d0, hnew₀, hinv₀⟩ := new_legal dev hl
+  unfold openStream at h ⊢
+  rw [hnew₀]
+  generalize hn : CachingReader.new devp = nw at h
+  obtain ⟨nw1, nw2⟩ := nw
+  cases nw1 with
+  | err e => simp at h
+  | panic => simp at h
+  | ok cr =>
+    have hcr := new_winv devp cr nw2 hn
+    have t0 : Twin cr cr₀ dev.content := ⟨devp.content, hcr, hinv₀, hp⟩
+    simp only [rbind, rlift] at h ⊢
+    injection h with h _
+    generalize hq1 : cr.readBytes 0 Abi.EI_NIDENT = q1 at h
+    obtain ⟨q1a, r1⟩ := q1
+    cases q1a with
+    | err e => simp at h
+    | panic => simp at h
+    | ok identBuf =>
+      obtain ⟨r₀1, g1, t1⟩ := readBytes_twin cr cr₀ _ t0 0 Abi.EI_NIDENT (by simp [Abi.EI_NIDENT]) identBuf r1 hq1
+      rw [g1]
+      simp only at h ⊢
+      cases hid : parseIdent sp identBuf with
+      | err e => simp [hid] at h
+      | panic => simp [hid] at h
+      | ok ident =>
+        simp only [hid] at h ⊢
+        cases hu : uadd Abi.EI_NIDENT (Gen.size_FileHeaderTail ident.2.1) with
+        | err e => simp [hu] at h
+        | panic => simp [hu] at h
+        | ok tailEnd =>
+          simp only [hu] at h ⊢
+          have hle : Abi.EI_NIDENT ≤ tailEnd := by
+            unfold uadd at hu
+            split at hu
+            · injection hu with hu; omega
+            · cases hu
+          generalize hq2 : r1.readBytes Abi.EI_NIDENT tailEnd = q2 at h
+          obtain ⟨q2a, r2⟩ := q2
+          cases q2a with
+          | err e => simp at h
+          | panic => simp at h
+          | ok tailBuf =>
+            obtain ⟨r₀2, g2, t2⟩ := readBytes_twin r1 r₀1 _ t1 Abi.EI_NIDENT tailEnd hle tailBuf r2 hq2
+            rw [g2]
+            simp only at h ⊢
+            cases hpt : parseTail ident tailBuf with
+            | err e => simp [hpt] at h
+            | panic => simp [hpt] at h
+            | ok ehdr =>
+              simp only [hpt] at h ⊢
+              generalize hq3 : parseSectionHeaders ehdr r2 = q3 at h
+              obtain ⟨q3a, r3⟩ := q3
+              cases q3a with
+              | err e => simp at h
+              | panic => simp at h
+              | ok shdrs =>
+                obtain ⟨r₀3, g3, t3⟩ := parseSectionHeaders_twin ehdr r2 r₀2 _ t2 shdrs r3 hq3
+                rw [g3]
+                simp only at h ⊢
+                generalize hq4 : parseProgramHeaders ehdr r3 = q4 at h
+                obtain ⟨q4a, r4⟩ := q4
+                cases q4a with
+                | err e => simp at h
+                | panic => simp at h
+                | ok phdrs =>
+                  obtain ⟨r₀4, g4, t4⟩ := parseProgramHeaders_twin ehdr r3 r₀3 _ t3 phdrs r4 hq4
+                  rw [g4]
+                  simp only at h ⊢
+                  injection h with h
+                  subst h
+                  exact ⟨_, _, rfl, rfl, rfl, rfl, t4.clearCache⟩
 
 end Elf
